@@ -56,6 +56,12 @@ GATE_ISINSTANCE = {
     ("EVQEGate", "ControlGate"): "is_control {0}",
 }
 GATE_FUNCTIONS = [dict(py=f"{c}.n_parameters", source=GSRC, gen=f"{c}_n_parameters", params=[], returns=Z) for c in GATE_CLASSES]
+# every gate class's static gate_type(): the enum EVQEGateType is the four-constructor type `gate_type` of Translate/C20Aux.v
+# (PART 0, shared with specs/c20.py, which maps `g.gate_type()` to gate_type_of g: link_*_gate_type below prove that reading)
+GateType = Nom("EVQEGateType", "gate_type", "gate_type_eqb")
+GATE_TYPE_CONSTS = {"EVQEGateType.IDENTITY": ("TId", GateType), "EVQEGateType.ROTATION": ("TRot", GateType),
+                    "EVQEGateType.CONTROL": ("TCtrl", GateType), "EVQEGateType.CONTROLLED_ROTATION": ("TCRot", GateType)}
+GATE_TYPE_FUNCTIONS = [dict(py=f"{c}.gate_type", source=GSRC, gen=f"{c}_gate_type", params=[], returns=GateType) for c in GATE_CLASSES]
 LAYER_FUNCTIONS = [
     dict(py="EVQECircuitLayer.is_valid", source=LSRC, gen="Layer_is_valid", params=[LSELF], returns=BOOL),
     dict(py="EVQECircuitLayer.__post_init__", source=LSRC, gen="Layer_post_init", kind="init", params=[LSELF], state=LSTATE),
@@ -70,8 +76,9 @@ SPEC = dict(
     link="coq/link/C16Link.v",
     # Genome.v has its own py_index (same definition): PyPrelude is imported again so that the generated code uses the
     # translator's vocabulary
-    imports=["From Coq Require Import Qround.", "From QV Require Import Evqe.Genome Translate.C16Aux.", "From QV Require Import Translate.PyPrelude."],
-    coq_deps=["theories/Evqe/GenomeOps_proofs.vo", "theories/Translate/C16Aux.vo"],
+    imports=["From Coq Require Import Qround.", "From QV Require Import Evqe.Genome Translate.C16Aux Translate.C20Aux.", "From QV Require Import Translate.PyPrelude."],
+    coq_deps=["theories/Evqe/GenomeOps_proofs.vo", "theories/Translate/C16Aux.vo", "theories/Translate/C20Aux.vo"],
+    consts=dict(GATE_TYPE_CONSTS),
     preamble="",
     reserved=["layer", "individual", "gate", "layers"],
     attrs={
@@ -105,7 +112,7 @@ SPEC = dict(
         # int(x) on an int (EVQECircuitLayer.__post_init__: int(sum(...)) of ints)
         "int": dict(code="{x}", ty=Z, params=[("x", Z)]),
     },
-    functions=GATE_FUNCTIONS + LAYER_FUNCTIONS + [
+    functions=GATE_FUNCTIONS + GATE_TYPE_FUNCTIONS + LAYER_FUNCTIONS + [
         dict(py="EVQEIndividual.is_valid", gen="Individual_is_valid", extra_params=POLY, params=[("self", "self", Ind)], returns=BOOL),
         dict(py="EVQEIndividual.__post_init__", gen="Individual_post_init", kind="init", extra_params=POLY, params=[("self", "self", Ind)],
              state=STATE, locals={"layer_parameter_indices": LPI}),
